@@ -17,6 +17,8 @@ def select(max_per_fn=10, max_cost=2.0, modules=None, inplace_ok=True):
                 continue      # zero-length axes in align-like templates: open known finding C06.empty-axis of the borrowed property
             byfn.setdefault(t['fn'], []).append(t)
         for fn, ts in sorted(byfn.items()):
+            if (m, fn) in (('C16', 'routing'),):
+                continue     # overwrites class members on purpose: not an operation
             # one (cheapest) template per combination of option-like parameters (bool / None / str values), so that
             # every option of every operation is exercised; then thin out evenly to max_per_fn
             buckets = {}
